@@ -81,6 +81,8 @@ def parse_out(out):
         if sec.startswith("EXC") or sec.startswith("FATAL"):
             its.append(dict(exc=sec)); continue
         parts = sec.split("|")
+        if len(parts) < 3 or "ncpl=" not in parts[2]:
+            its.append(dict(exc="TRUNCATED (the driver died while writing this section)")); continue
         h = parts[0].split()
         t = parts[1].split()
         cells = [dict(id=int(t[i]), local=int(t[i + 1]), cls=int(t[i + 2]), nslots=int(t[i + 3]), nlive=int(t[i + 4]), nfaces=int(t[i + 5]), nft=int(t[i + 6]),
@@ -110,7 +112,9 @@ def run(ck):
     model = vlib.ocaml_model()
     rng = random.Random(ck.seed * 8111 + 8)
     # first: populations that shrink to a single, still coupled survivor (at list position 0 and at position 1), and to a pair
-    forced = [("pair0",), ("pair1",), ("normal", "remove_later"), ("remove_later", "normal", "remove_later")]
+    # ... and iterations in which as many cells divide as are removed (the list keeps its length while every position changes)
+    forced = [("pair0",), ("pair1",), ("normal", "remove_later"), ("remove_later", "normal", "remove_later"),
+              ("divide0", "remove0", "normal"), ("remove0", "normal", "divide0", "normal"), ("divide0", "divide0", "remove0", "normal", "remove0")]
     cases = [gen_case(rng, "c08_f%d" % i, forced_roles=fr) for i, fr in enumerate(forced)] + [gen_case(rng, "c08_%d" % i) for i in range(ncase)]
     # run in parallel processes (each history is independent)
     from concurrent.futures import ThreadPoolExecutor
